@@ -16,7 +16,7 @@ import vt, cexpr
 from vt import Infra
 from cexpr import CT, lit, leaves, render, const_text
 
-FAMS = ["bin", "un", "cast", "cond", "d2l", "d2r"]
+FAMS = ["bin", "un", "cast", "cond", "d2l", "d2r", "cc"]
 STRIDE = 96
 ROT = ["bool", "char", "uchar", "short", "ushort", "int", "uint", "long", "ulong", "enum"]
 WID = {"bool": 1, "char": 8, "uchar": 8, "short": 16, "ushort": 16, "int": 32, "uint": 32, "long": 64, "ulong": 64, "enum": 32}
@@ -52,8 +52,8 @@ def consumers(v):
     if -(1 << 31) <= val < (1 << 31):
         ex["e"] = [u64(val)]
         ex["c"] = ["1"]
-    elif t in ("long", "ulong") and val % 5 == 0:
-        ex["c"] = ["1"]            # D06: case labels are kept in an int (a thinned sample: each costs a gcc run)
+    elif t in ("long", "ulong"):
+        ex["c"] = ["1"]            # labels outside int range (D06, fixed in 2d0d4b7)
     if 1 <= val <= 2000:
         ex["a"] = [str(val)]
     if 1 <= val <= 32:
@@ -62,6 +62,8 @@ def consumers(v):
         ex["l"] = [str(2 * val)]
     if 0 <= val <= 500:
         ex["d"] = [str(4 * (val + 1))]
+    if v["f"] == "cc":                # (T)(U)x: also `static T g = (U)x;` (implicit outer conversion)
+        ex["i"] = [v["u"]]
     if pp_ok(v["e"]):
         ex["p"] = ["1" if val else "0"]
         ex["q"] = ["1"]
@@ -83,6 +85,9 @@ def case_code(n, v, only=None):
     if "t" in ex:
         top.append("static %s t%d = %s;" % (CT[rk], n, E))
         body.append('printf("%d t %%lu\\n", (unsigned long)t%d);' % (n, n))
+    if "i" in ex:
+        top.append("static %s i%d = %s;" % (CT[e["t"]], n, const_text(e["a"])))
+        body.append('printf("%d i %%lu\\n", (unsigned long)i%d);' % (n, n))
     if "e" in ex:
         top.append("enum { e%d = %s };" % (n, E))
         body.append('printf("%d e %%lu\\n", (unsigned long)(long)e%d);' % (n, n))
@@ -126,7 +131,7 @@ def mkprog(cases):
     return cexpr.PRELUDE + "\n".join(tops) + "\nint main(void) {\n" + "\n".join(calls) + "\nreturn 0; }\n"
 
 
-NAMES = dict(s="static-init-long", t="static-init", e="enumerator", a="array-bound", b="bitfield-width", l="alignas",
+NAMES = dict(i="static-init-implicit", s="static-init-long", t="static-init", e="enumerator", a="array-bound", b="bitfield-width", l="alignas",
              d="designator", c="case-label", p="pp-if", q="pp-if-eq", v="runtime")
 
 
@@ -221,7 +226,7 @@ def run(ctx):
     cexpr.model_check(ctx, "ExprMC_quick.cfg" if q else "ExprMC.cfg",
                       "eval2/is_const_expr (ConstEval) does not compute the C11 value or type of a constant expression",
                       ["ConstInv"], workers=12 if q else 16, sensitivity=False,
-                      Shapes='{"bin","un","cast","cond","d2l","d2r","d2u"}')
+                      Shapes='{"bin","un","cast","cond","cc","d2l","d2r","d2u"}')
     # sensitivity control: the pinned folder (cast arm typed uint32_t, no re-wrapping) must be rejected
     c2 = ctx.cfg("expr", "ExprMC_quick.cfg", FIX_D10=False, Shapes='{"un","cast"}')
     t2 = re.sub(r"(?m)^INVARIANTS .*$", "INVARIANTS ConstInv", open(c2).read())
